@@ -128,6 +128,20 @@ impl Property for C07 {
         let mut gs = GuardState { strict_remove, ..Default::default() };
         let mut ops = Vec::new();
         let mut g = Gen { rng, guarded, tag: 0, allow_tokio: true };
+        // one history in eight starts with the atomic-replace idiom (a rename over a name that is durable)
+        if g.rng.chance(1, 8) {
+            for op in g.idiom_atomic_replace() {
+                if guarded && c10::guard_violation(&m, &gs, &op).is_some() {
+                    break;
+                }
+                let mo = exec_model(&mut m, &op);
+                if mo == crate::fskit::model::Obs::Unjudged {
+                    break;
+                }
+                guard_step(&mut gs, &op, &mo);
+                ops.push(op);
+            }
+        }
         for i in 0..n {
             if i == mid {
                 ops.push(FsOp::Crash);
